@@ -37,4 +37,15 @@ def tok : Option String → String
     if s == "" then "e"
     else "x" ++ String.ofList (s.toUTF8.toList.flatMap fun b => [hexDigit (b.toNat / 16), hexDigit (b.toNat % 16)])
 
+/-- `num/den` or an integer -/
+def parseRat (s : String) : Option Rat :=
+  match s.splitOn "/" with
+  | [a, b] => match a.toInt?, b.toNat? with
+    | some n, some d => if d = 0 then none else some ((n : Rat) / (d : Rat))
+    | _, _ => none
+  | [a] => a.toInt?.map fun n => (n : Rat)
+  | _ => none
+
+def showRat (r : Rat) : String := s!"{r.num}/{r.den}"
+
 end Pynenc.Proto
